@@ -360,6 +360,30 @@ def run(ck):
         fcntl.flock(f, fcntl.LOCK_EX)
         env.socks.append(f)          # kept open (and locked) for the duration of the run; Env.close() closes it
     states.append(('file:log_file_flocked_by_another_process', fcfg, 0, hold_flock))
+    # the log path is a FIFO that nobody has open for reading ("not being read"): a plain open() for writing waits for a reader
+    states.append(('file:fifo_that_nobody_reads', fcfg, 0, lambda env: os.mkfifo(os.path.join(env.w, 'log'))))
+    # another process (a log shipper, a backup agent) holds a lease on the - perfectly writable - log file and does not give it up:
+    # a plain open() sleeps until the lease-break time (45 s by default) has passed
+
+    class Holder:
+        def __init__(self, p):
+            self.p = p
+
+        def close(self):
+            self.p.kill()
+            self.p.wait()
+
+    def hold_lease(env):
+        import subprocess, sys
+        lp = os.path.join(env.w, 'log')
+        open(lp, 'wb').close()
+        code = ('import fcntl, os, signal, sys, time\nsignal.signal(signal.SIGIO, signal.SIG_IGN)\nfd = os.open(sys.argv[1], os.O_RDWR)\n'
+                'fcntl.fcntl(fd, fcntl.F_SETLEASE, fcntl.F_WRLCK)\nsys.stdout.write("ok\\n"); sys.stdout.flush()\ntime.sleep(120)\n')
+        p = subprocess.Popen([sys.executable, '-c', code, lp], stdout=subprocess.PIPE, stderr=subprocess.PIPE)
+        env.socks.append(Holder(p))
+        if p.stdout.readline().strip() != b'ok':
+            raise RuntimeError('lease holder did not start: %r' % p.stderr.read()[-300:])
+    states.append(('file:log_file_leased_by_another_process', fcfg, 0, hold_lease))
     big = '[snoopy]\ndatasource_message_max_length = 20000\nlog_message_max_length = 20000\nmessage_format = %%{env:M}\noutput = %s\n'
     for oname in ('stdout', 'stderr'):
         fdn = '1' if oname == 'stdout' else '2'
